@@ -33,6 +33,9 @@ func genC16(rt *rapid.T) *Program {
 	case mode < 5 && steerable:
 		p.Mode = "shrink"
 		p.Fill, p.Keep = 1, 0
+		if k := p.Spec.Kind; k == "mapof" || k == "cacheof" {
+			p.Keep = 1
+		}
 	}
 	// hot keys: k0 is W's key; k1,k2 are stable (W never touches them)
 	present := make([]bool, p.Hot)
@@ -42,7 +45,7 @@ func genC16(rt *rapid.T) *Program {
 			pr = false
 		}
 		if p.Mode == "shrink" {
-			pr = k == 0 // only W's key: deleting it leaves (almost) nothing
+			pr = k <= 1 // sizes that sit just above the shrink threshold until W deletes k0
 		}
 		present[k] = pr
 		if pr {
